@@ -256,7 +256,7 @@ def run_find(crystal, v):
             np.random.seed(v["rseed"] % (2 ** 32))
             kw = {}
             if v["hints"] is not None:
-                kw = {k: x for k, x in zip(("axisp1_idx", "axisp2_idx", "opoint_idx"), v["hints"]) if x is not None}
+                kw = {k: (x if v["rseed"] % 2 == 0 else np.int64(x)) for k, x in zip(("axisp1_idx", "axisp2_idx", "opoint_idx"), v["hints"]) if x is not None}
             if v.get("prior") is not None and v["dims"] is None:
                 _search_in_prior_state(st, pt, info, v["prior"], kw)
             ans = find_pattern_in_structure(st, pt, atol=info["atol"], return_positions_and_quats=True, **kw)
